@@ -430,3 +430,11 @@ func Test37RightOperandPosition(t *testing.T) {
 	}
 	wantOut(t, one(`{{ 1 + "2" }}|{{ i * "3" }}|{{ i == s }}`, v, nil), "3|21|false")
 }
+
+func Test38UnhashableKey(t *testing.T) {
+	v := jet.VarMap{}
+	v.Set("m", map[interface{}]string{"a": "x"})
+	v.Set("k", []int{1})
+	wantErr(t, one("\n{{ m[k] }}", v, nil), `"/t.jet":2`)
+	wantOut(t, one(`{{ m["a"] }}|{{ isset(m[k]) }}`, v, nil), "x|false")
+}
